@@ -534,6 +534,12 @@ def run_case(case):
         return run_borrowed(case)
     if case['index'] % 25 == 13:
         return run_snapshots(case)
+    if case['index'] % 25 == 3:
+        from .c07 import dates_across_runs
+        violations, sess = dates_across_runs(
+            case, random.Random('%s/%s/c08-dates' % (case['seed'], case['index'])), prefix='c08')
+        return {'evals': 2, 'sigs': [sess.signature()], 'violations': violations, 'sample': None,
+                'stats': {'dates_across_simulations': 1, 'activations': sess.n}}
     program, exprs = build(case)
     sess = Session()
     holder = {}
